@@ -30,9 +30,10 @@ CHECK = Check(
 TOL = 1e-9
 
 
-def _obj(yaw, qs, pr, label="car", origin=False):
+def _obj(yaw, qs, pr, label="car", origin=False, wide=False):
     # origin=True: the object sits exactly on the origin of the frame it is expressed in (e.g. the map origin)
-    return {"p": [0.0, 0.0, 0.0] if origin else [3.0, -2.0, 0.5], "yaw": yaw, "qs": qs, "pr": pr, "size": [2.0, 4.0, 1.5], "label": label, "score": 0.7}
+    # wide=True: a box that is wider than long (heading is the orientation's, whatever the box proportions)
+    return {"p": [0.0, 0.0, 0.0] if origin else [3.0, -2.0, 0.5], "yaw": yaw, "qs": qs, "pr": pr, "size": [4.0, 2.0, 1.5] if wide else [2.0, 4.0, 1.5], "label": label, "score": 0.7}
 
 
 @st.composite
@@ -57,7 +58,7 @@ def pairs(draw, tier="quick"):
     origin = draw(st.integers(0, 5)) == 0
     if origin:
         ego = [0.0, 0.0, ego[2]]  # ego on the map origin (any yaw): the objects then sit exactly on the map origin, too
-    return {"kind": kind, "ye": ye, "yg": yg, "qse": draw(GEN.qsigns()), "qsg": draw(GEN.qsigns()), "pre": pre, "prg": prg, "ego": ego, "origin": origin}
+    return {"kind": kind, "ye": ye, "yg": yg, "qse": draw(GEN.qsigns()), "qsg": draw(GEN.qsigns()), "pre": pre, "prg": prg, "ego": ego, "origin": origin, "wide": draw(st.sampled_from([[False, False], [False, False], [True, False], [False, True], [True, True]]))}
 
 
 def gen_grid(tier):
@@ -81,7 +82,10 @@ def _weight(ctx, e, g, what, tr=None):
 
 
 def _body(ctx, d):
-    eo, go = _obj(d["ye"], d["qse"], d["pre"], origin=bool(d.get("origin"))), _obj(d["yg"], d["qsg"], d["prg"], origin=bool(d.get("origin")))
+    wd = d.get("wide") or [False, False]
+    eo, go = _obj(d["ye"], d["qse"], d["pre"], origin=bool(d.get("origin")), wide=wd[0]), _obj(d["yg"], d["qsg"], d["prg"], origin=bool(d.get("origin")), wide=wd[1])
+    if wd[0] != wd[1]:
+        ctx.cls("one_box_wider_than_long")
     if d.get("origin"):
         ctx.cls("objects_on_frame_origin")
     # reference: yaw of each physical orientation, minimal absolute difference
